@@ -4,7 +4,7 @@ from fractions import Fraction as F
 import simlib, simstream, core
 from core import fr, unfr
 TRUSTED = ["exact regime (rates 0, 1/2, 1, 3/2, 2, 5/2, 3, 4, 10 and half-integer quantities)",
-		   "cost *functions* (callables) and multi-product shared raw materials are not modelled (rates only, single product)"]
+		   "cost functions are exercised as polynomials (degree <= 2) that the model evaluates exactly; multi-product shared raw materials are not modelled"]
 THEOREM = 'Props/C05.list (period_costs_def, total_is_sum)'
 
 
@@ -77,6 +77,9 @@ def run(rep, drv):
 	rng = random.Random(rep.seed * 1000003 + 5)
 	for k in range(2000 if th else 200):
 		kernel_case(rep, drv, simlib.gen_spec(rng, th))
+	# cost functions together with disruptions (items held for disrupted customers enter the holding-cost function)
+	for k in range(600 if th else 80):
+		kernel_case(rep, drv, simlib.gen_spec(rng, th, {'pcostfn': .6, 'pdis': .7}))
 	for k in range(60 if th else 12):
 		trials_case(rep, rng)
 
